@@ -113,6 +113,8 @@ def main():
                 if pid == 0:
                     try:
                         os.close(r)
+                        if step.get("cwd"):
+                            os.chdir(step["cwd"])
                         if "text" in step:
                             o = outcome(lambda: blackbird.loads(step["text"]))
                         else:
@@ -128,13 +130,27 @@ def main():
                 res.append(json.loads(data) if data else {"out": "error", "cls": "ChildDied", "msg": ""})
             out.append(res)
         elif kind == "history":
-            # a sequence of loads in ONE process: every outcome is reported
+            # a sequence of loads in ONE (pristine, forked) process: every outcome is reported
+            r0, w0 = os.pipe()
+            pid0 = os.fork()
+            if pid0 != 0:
+                os.close(w0)
+                with os.fdopen(r0) as f0:
+                    data0 = f0.read()
+                os.waitpid(pid0, 0)
+                out.append(json.loads(data0) if data0 else {"steps": [], "shared": [], "died": True})
+                continue
+            os.close(r0)
+            _child_out = []
+            out, _parent_out = _child_out, out
             res = []
             progs = []
             for step in item["steps"]:
                 holder = []
 
                 def run(step=step, holder=holder):
+                    if step.get("cwd"):
+                        os.chdir(step["cwd"])
                     p = blackbird.loads(step["text"]) if "text" in step else blackbird.load(step["path"])
                     holder.append(p)
                     return p
@@ -171,7 +187,9 @@ def main():
                 for j in range(i + 1, len(sets)):
                     if sets[i] & sets[j]:
                         shared.append([i, j])
-            out.append({"steps": res, "shared": shared})
+            with os.fdopen(w0, "w") as f0:
+                json.dump({"steps": res, "shared": shared}, f0)
+            os._exit(0)
         else:
             out.append({"out": "error", "cls": "BadRequest", "msg": kind})
     json.dump(out, sys.stdout)
